@@ -1,19 +1,18 @@
 //go:build verif
 
-package mapping
+package conf
 
-// C08 correspondence harness: every trace line is one self-contained unmarshal of a generated
-// document into a struct type built with reflect.StructOf.
+// C08 harness for core/conf: every trace line loads one generated configuration document into a struct type built with
+// reflect.StructOf (json tags) through LoadFromJsonBytes / LoadFromYamlBytes / LoadFromTomlBytes or Load(file).
 //
-//   u key=<tagkey> fs=<0/1> fa=<0/1> T <type tokens> I <input tokens>  =>  ok <value dump> | err <class>
+//   c fmt=<json|yaml|toml> via=<bytes|file> key=json T <type tokens> I <input tokens>
+//       =>  D <the document handed to the unmarshaller, as tokens | none> R ok <value dump> | err <class>
 //
-// type tokens : bool int i8 i16 i32 i64 uint u8 u16 u32 u64 f32 f64 str | * ty | [] ty | map ty
-//               | { Name ty t:<tag value under key> ... }      (x instead of t:… = field tagged with another key only)
-// input tokens: { key v ... } | [ v ... ] | null | true | false | n:<json number> | s:<string>
-// value dump  : { Name v ... } | nil | & v | b:true | i:12 | f:1.5e+00 | s:text | [ v ... ] | m{ k v ... }
-//
-// key=json runs UnmarshalJsonBytes on the JSON text; other keys run NewUnmarshaler(key, opts…).Unmarshal on the
-// decoded tree (fs = WithStringValues+WithOpaqueKeys, fa = WithFromArray: the form/path unmarshalers of rest/httpx).
+// conf converts the text to JSON (YAML / TOML front ends), lowers the keys that name fields (toLowerCaseKeyMap) and
+// unmarshals with WithCanonicalKeyFunc(strings.ToLower).  The document after conversion and lowering is a value the real
+// code computes itself: the harness computes it with the same functions and prints it (D …); the Lean driver checks that
+// it holds the supplied values (keys up to case) and runs the model and both monitors on it.
+// Type, input and value tokens, the generator of types and documents: as in the core/mapping harness.
 
 import (
 	"bytes"
@@ -21,10 +20,12 @@ import (
 	"fmt"
 	"math"
 	"net/textproto"
+	"os"
 	"reflect"
 	"sort"
 	"strconv"
 	"strings"
+
 	"testing"
 
 	"github.com/zeromicro/go-zero/core/jsonx"
@@ -32,33 +33,42 @@ import (
 	"github.com/zeromicro/go-zero/internal/verifh"
 )
 
-// ---------------------------------------------------------------- executor (driven only by op text)
+var _ = textproto.CanonicalMIMEHeaderKey
 
-type c08Parser struct {
+func c08cCase(r *verifh.Rng, key string) string {
+	switch r.Intn(6) {
+	case 0:
+		return strings.ToUpper(key)
+	case 1:
+		if len(key) > 0 {
+			return strings.ToUpper(key[:1]) + key[1:]
+		}
+	}
+	return key
+}
+
+type c08cParser struct {
 	toks []string
 	pos  int
 }
 
-func (p *c08Parser) next() string {
+func (p *c08cParser) next() string {
 	if p.pos >= len(p.toks) {
-		panic("c08: unexpected end of tokens")
+		panic("c08c: unexpected end of tokens")
 	}
 	t := p.toks[p.pos]
 	p.pos++
 	return t
 }
 
-func (p *c08Parser) peek() string {
+func (p *c08cParser) peek() string {
 	if p.pos >= len(p.toks) {
 		return ""
 	}
 	return p.toks[p.pos]
 }
 
-// c08Multi: struct types carry a `json` and a `form` tag on every field (op `um`)
-var c08Multi bool
-
-var c08Prims = map[string]reflect.Type{
+var c08cPrims = map[string]reflect.Type{
 	"bool": reflect.TypeOf(false), "int": reflect.TypeOf(int(0)), "i8": reflect.TypeOf(int8(0)),
 	"i16": reflect.TypeOf(int16(0)), "i32": reflect.TypeOf(int32(0)), "i64": reflect.TypeOf(int64(0)),
 	"uint": reflect.TypeOf(uint(0)), "u8": reflect.TypeOf(uint8(0)), "u16": reflect.TypeOf(uint16(0)),
@@ -66,7 +76,7 @@ var c08Prims = map[string]reflect.Type{
 	"f64": reflect.TypeOf(float64(0)), "str": reflect.TypeOf(""),
 }
 
-func (p *c08Parser) parseType(key string) reflect.Type {
+func (p *c08cParser) parseType(key string) reflect.Type {
 	t := p.next()
 	switch t {
 	case "*":
@@ -85,36 +95,27 @@ func (p *c08Parser) parseType(key string) reflect.Type {
 			switch {
 			case tag == "x":
 				st = reflect.StructTag(`zzother:"zz"`)
-			case strings.HasPrefix(tag, "t:") && c08Multi:
-				// `um`: the same struct type is read by two unmarshalers: the tag value under `json`, the bare key under `form`
-				if len(tag) > 2 {
-					kp := tag[2:]
-					if i := strings.IndexByte(kp, ','); i >= 0 {
-						kp = kp[:i]
-					}
-					st = reflect.StructTag("json:" + strconv.Quote(tag[2:]) + " form:" + strconv.Quote(kp))
-				}
 			case strings.HasPrefix(tag, "t:"):
 				if len(tag) > 2 {
 					st = reflect.StructTag(key + ":" + strconv.Quote(tag[2:]))
 				}
 			default:
-				panic("c08: bad tag token " + tag)
+				panic("c08c: bad tag token " + tag)
 			}
 			fs = append(fs, reflect.StructField{Name: name, Type: ft, Tag: st})
 		}
 		p.next()
 		return reflect.StructOf(fs)
 	default:
-		if pt, ok := c08Prims[t]; ok {
+		if pt, ok := c08cPrims[t]; ok {
 			return pt
 		}
-		panic("c08: bad type token " + t)
+		panic("c08c: bad type token " + t)
 	}
 }
 
 // parseInput renders the input tokens as JSON text.
-func (p *c08Parser) parseInput(sb *strings.Builder) {
+func (p *c08cParser) parseInput(sb *strings.Builder) {
 	t := p.next()
 	switch {
 	case t == "{":
@@ -146,18 +147,18 @@ func (p *c08Parser) parseInput(sb *strings.Builder) {
 	case t == "null" || t == "true" || t == "false":
 		sb.WriteString(t)
 	case strings.HasPrefix(t, "n:"):
-		if !c08ValidJSONNumber(t[2:]) {
-			panic("c08: not a JSON number " + t)
+		if !c08cValidJSONNumber(t[2:]) {
+			panic("c08c: not a JSON number " + t)
 		}
 		sb.WriteString(t[2:])
 	case strings.HasPrefix(t, "s:"):
 		sb.WriteString(strconv.Quote(t[2:]))
 	default:
-		panic("c08: bad input token " + t)
+		panic("c08c: bad input token " + t)
 	}
 }
 
-func c08ValidJSONNumber(s string) bool {
+func c08cValidJSONNumber(s string) bool {
 	i := 0
 	n := len(s)
 	if i < n && s[i] == '-' {
@@ -201,7 +202,7 @@ func c08ValidJSONNumber(s string) bool {
 	return i == n
 }
 
-func c08Dump(sb *strings.Builder, v reflect.Value) {
+func c08cDump(sb *strings.Builder, v reflect.Value) {
 	switch v.Kind() {
 	case reflect.Bool:
 		fmt.Fprintf(sb, " b:%v", v.Bool())
@@ -220,13 +221,13 @@ func c08Dump(sb *strings.Builder, v reflect.Value) {
 			sb.WriteString(" nil")
 		} else {
 			sb.WriteString(" &")
-			c08Dump(sb, v.Elem())
+			c08cDump(sb, v.Elem())
 		}
 	case reflect.Struct:
 		sb.WriteString(" {")
 		for i := 0; i < v.NumField(); i++ {
 			sb.WriteString(" " + v.Type().Field(i).Name)
-			c08Dump(sb, v.Field(i))
+			c08cDump(sb, v.Field(i))
 		}
 		sb.WriteString(" }")
 	case reflect.Slice:
@@ -235,7 +236,7 @@ func c08Dump(sb *strings.Builder, v reflect.Value) {
 		} else {
 			sb.WriteString(" [")
 			for i := 0; i < v.Len(); i++ {
-				c08Dump(sb, v.Index(i))
+				c08cDump(sb, v.Index(i))
 			}
 			sb.WriteString(" ]")
 		}
@@ -251,7 +252,7 @@ func c08Dump(sb *strings.Builder, v reflect.Value) {
 			sort.Strings(keys)
 			for _, k := range keys {
 				sb.WriteString(" " + k)
-				c08Dump(sb, v.MapIndex(reflect.ValueOf(k)))
+				c08cDump(sb, v.MapIndex(reflect.ValueOf(k)))
 			}
 			sb.WriteString(" }")
 		}
@@ -260,7 +261,7 @@ func c08Dump(sb *strings.Builder, v reflect.Value) {
 	}
 }
 
-func c08Class(err error) string {
+func c08cClass(err error) string {
 	s := err.Error()
 	switch {
 	case strings.Contains(s, "is not set"), strings.Contains(s, "is not fully set"):
@@ -295,10 +296,10 @@ func c08Class(err error) string {
 	return "other:" + strings.ReplaceAll(s, " ", "_")
 }
 
-// c08Tree reads the input tokens into a Go tree (numbers keep their literal text).
-type c08Num string
+// c08cTree reads the input tokens into a Go tree (numbers keep their literal text).
+type c08cNum string
 
-func (p *c08Parser) parseTree() any {
+func (p *c08cParser) parseTree() any {
 	t := p.next()
 	switch {
 	case t == "{":
@@ -312,7 +313,7 @@ func (p *c08Parser) parseTree() any {
 			m[k] = p.parseTree()
 		}
 		p.next()
-		return c08Obj{keys: keys, m: m}
+		return c08cObj{keys: keys, m: m}
 	case t == "[":
 		l := []any{}
 		for p.peek() != "]" {
@@ -327,25 +328,25 @@ func (p *c08Parser) parseTree() any {
 	case t == "false":
 		return false
 	case strings.HasPrefix(t, "n:"):
-		if !c08ValidJSONNumber(t[2:]) {
-			panic("c08: not a JSON number " + t)
+		if !c08cValidJSONNumber(t[2:]) {
+			panic("c08c: not a JSON number " + t)
 		}
-		return c08Num(t[2:])
+		return c08cNum(t[2:])
 	case strings.HasPrefix(t, "s:"):
 		return t[2:]
 	}
-	panic("c08: bad input token " + t)
+	panic("c08c: bad input token " + t)
 }
 
-type c08Obj struct {
+type c08cObj struct {
 	keys []string
 	m    map[string]any
 }
 
-// c08Yaml renders the tree as block-style YAML (strings and keys double-quoted, numbers with their literal text).
-func c08Yaml(sb *strings.Builder, v any, indent string, inline bool) {
+// c08cYaml renders the tree as block-style YAML (strings and keys double-quoted, numbers with their literal text).
+func c08cYaml(sb *strings.Builder, v any, indent string, inline bool) {
 	switch x := v.(type) {
-	case c08Obj:
+	case c08cObj:
 		if len(x.keys) == 0 {
 			sb.WriteString(" {}\n")
 			return
@@ -358,7 +359,7 @@ func c08Yaml(sb *strings.Builder, v any, indent string, inline bool) {
 				sb.WriteString(indent)
 			}
 			sb.WriteString(strconv.Quote(k) + ":")
-			c08Yaml(sb, x.m[k], indent+"  ", false)
+			c08cYaml(sb, x.m[k], indent+"  ", false)
 		}
 	case []any:
 		if len(x) == 0 {
@@ -374,10 +375,10 @@ func c08Yaml(sb *strings.Builder, v any, indent string, inline bool) {
 			}
 			sb.WriteString("- ")
 			switch e.(type) {
-			case c08Obj, []any:
-				c08Yaml(sb, e, indent+"  ", true)
+			case c08cObj, []any:
+				c08cYaml(sb, e, indent+"  ", true)
 			default:
-				c08Yaml(sb, e, indent+"  ", true)
+				c08cYaml(sb, e, indent+"  ", true)
 			}
 		}
 	case nil:
@@ -392,7 +393,7 @@ func c08Yaml(sb *strings.Builder, v any, indent string, inline bool) {
 		} else {
 			fmt.Fprintf(sb, " %v\n", x)
 		}
-	case c08Num:
+	case c08cNum:
 		if inline {
 			sb.WriteString(string(x) + "\n")
 		} else {
@@ -407,18 +408,18 @@ func c08Yaml(sb *strings.Builder, v any, indent string, inline bool) {
 	}
 }
 
-// c08Toml renders the tree as TOML: top-level `key = value` lines, nested objects as inline tables; ok = false when the
+// c08cToml renders the tree as TOML: top-level `key = value` lines, nested objects as inline tables; ok = false when the
 // document cannot be written in TOML (null, a top level that is not an object).
-func c08TomlValue(sb *strings.Builder, v any) bool {
+func c08cTomlValue(sb *strings.Builder, v any) bool {
 	switch x := v.(type) {
-	case c08Obj:
+	case c08cObj:
 		sb.WriteString("{")
 		for i, k := range x.keys {
 			if i > 0 {
 				sb.WriteString(", ")
 			}
 			sb.WriteString(strconv.Quote(k) + " = ")
-			if !c08TomlValue(sb, x.m[k]) {
+			if !c08cTomlValue(sb, x.m[k]) {
 				return false
 			}
 		}
@@ -429,7 +430,7 @@ func c08TomlValue(sb *strings.Builder, v any) bool {
 			if i > 0 {
 				sb.WriteString(", ")
 			}
-			if !c08TomlValue(sb, e) {
+			if !c08cTomlValue(sb, e) {
 				return false
 			}
 		}
@@ -438,7 +439,7 @@ func c08TomlValue(sb *strings.Builder, v any) bool {
 		return false
 	case bool:
 		fmt.Fprintf(sb, "%v", x)
-	case c08Num:
+	case c08cNum:
 		sb.WriteString(string(x))
 	case string:
 		sb.WriteString(strconv.Quote(x))
@@ -446,15 +447,15 @@ func c08TomlValue(sb *strings.Builder, v any) bool {
 	return true
 }
 
-func c08Toml(v any) (string, bool) {
-	o, ok := v.(c08Obj)
+func c08cToml(v any) (string, bool) {
+	o, ok := v.(c08cObj)
 	if !ok {
 		return "", false
 	}
 	var sb strings.Builder
 	for _, k := range o.keys {
 		sb.WriteString(strconv.Quote(k) + " = ")
-		if !c08TomlValue(&sb, o.m[k]) {
+		if !c08cTomlValue(&sb, o.m[k]) {
 			return "", false
 		}
 		sb.WriteString("\n")
@@ -462,8 +463,8 @@ func c08Toml(v any) (string, bool) {
 	return sb.String(), true
 }
 
-// c08JSONTokens prints a decoded JSON document (json.Number for numbers) as input tokens, object keys sorted.
-func c08JSONTokens(sb *strings.Builder, v any) bool {
+// c08cJSONTokens prints a decoded JSON document (json.Number for numbers) as input tokens, object keys sorted.
+func c08cJSONTokens(sb *strings.Builder, v any) bool {
 	switch x := v.(type) {
 	case map[string]any:
 		sb.WriteString(" {")
@@ -477,15 +478,21 @@ func c08JSONTokens(sb *strings.Builder, v any) bool {
 				return false
 			}
 			sb.WriteString(" " + k)
-			if !c08JSONTokens(sb, x[k]) {
+			if !c08cJSONTokens(sb, x[k]) {
 				return false
 			}
 		}
 		sb.WriteString(" }")
 	case []any:
+		if x == nil {
+			// toLowerCaseInterface turns an empty array into a nil slice; a nil slice is written `[ null ]` (what fillSlice
+			// does with both: nothing is stored)
+			sb.WriteString(" [ null ]")
+			return true
+		}
 		sb.WriteString(" [")
 		for _, e := range x {
-			if !c08JSONTokens(sb, e) {
+			if !c08cJSONTokens(sb, e) {
 				return false
 			}
 		}
@@ -507,7 +514,7 @@ func c08JSONTokens(sb *strings.Builder, v any) bool {
 	return true
 }
 
-func c08DocTokens(b []byte) (string, bool) {
+func c08cDocTokens(b []byte) (string, bool) {
 	dec := json.NewDecoder(bytes.NewReader(b))
 	dec.UseNumber()
 	var v any
@@ -515,273 +522,15 @@ func c08DocTokens(b []byte) (string, bool) {
 		return "", false
 	}
 	var sb strings.Builder
-	if !c08JSONTokens(&sb, v) {
+	if !c08cJSONTokens(&sb, v) {
 		return "", false
 	}
 	return strings.TrimSpace(sb.String()), true
 }
 
-// v C [ {current} {parent} {grandparent} ... ] Q [ s:r.<key> | s:s.<key> ... ]  =>  found <value> | absent ; ...
-// The chain is built the way the unmarshaller nests struct fields: every enclosing level is a simpleValuer node whose
-// parent is the (simple) field valuer of the level above; a query asks the valuer createValuer gives a field of the
-// innermost struct: recursiveValuer for `inherit` (r.), simpleValuer otherwise (s.).
-func c08ExecValuer(op []string) string {
-	if len(op) < 6 || op[1] != "C" {
-		return "bad-op"
-	}
-	p := &c08Parser{toks: op[2:]}
-	var sb strings.Builder
-	p.parseInput(&sb)
-	var chain []any
-	if e := jsonx.UnmarshalFromString(sb.String(), &chain); e != nil {
-		return "bad-op"
-	}
-	if p.next() != "Q" {
-		return "bad-op"
-	}
-	var qb strings.Builder
-	p.parseInput(&qb)
-	var qs []string
-	if e := jsonx.UnmarshalFromString(qb.String(), &qs); e != nil || p.pos != len(p.toks) {
-		return "bad-op"
-	}
-	// outermost first
-	var parentField valuerWithParent
-	var node valuerWithParent
-	for i := len(chain) - 1; i >= 0; i-- {
-		m, ok := chain[i].(map[string]any)
-		if !ok {
-			return "bad-op"
-		}
-		if parentField == nil {
-			node = simpleValuer{current: mapValuer(m)}
-		} else {
-			node = &simpleValuer{current: mapValuer(m), parent: parentField}
-		}
-		parentField = createValuer(node, nil)
-	}
-	if node == nil {
-		return "bad-op"
-	}
-	inheritOpts := &fieldOptionsWithContext{Inherit: true}
-	var out []string
-	for _, q := range qs {
-		if len(q) < 3 || q[1] != '.' {
-			return "bad-op"
-		}
-		var vl valuerWithParent
-		if q[0] == 'r' {
-			vl = createValuer(node, inheritOpts)
-		} else {
-			vl = createValuer(node, nil)
-		}
-		val, ok := vl.Value(q[2:])
-		if !ok {
-			out = append(out, "absent")
-			continue
-		}
-		var vb strings.Builder
-		if !c08JSONTokens(&vb, val) {
-			return "bad-op"
-		}
-		out = append(out, "found "+strings.TrimSpace(vb.String()))
-	}
-	return strings.Join(out, " ; ")
-}
-
-func c08GenValuerOp(r *verifh.Rng) string {
-	keys := []string{"a", "b", "c", "d"}
-	depth := r.Pick(1, 2, 2, 3, 3, 4)
-	var sb strings.Builder
-	sb.WriteString("v C [")
-	for i := 0; i < depth; i++ {
-		sb.WriteString(" {")
-		for _, k := range keys {
-			if !r.Chance(1, 2) {
-				continue
-			}
-			sb.WriteString(" " + k + " ")
-			switch r.Intn(5) {
-			case 0, 1:
-				// an object: merged with the inherited object of the same key
-				sb.WriteString("{")
-				for _, kk := range []string{"x", "y", "z"} {
-					if r.Chance(1, 2) {
-						sb.WriteString(" " + kk + " " + r.PickS("n:1", "n:2", "s:v", "true", "{ p n:1 }", "null"))
-					}
-				}
-				sb.WriteString(" }")
-			case 2:
-				sb.WriteString(r.PickS("n:1", "n:2", "n:3"))
-			case 3:
-				sb.WriteString(r.PickS("s:x", "s:y", "true", "null"))
-			default:
-				sb.WriteString(r.PickS("[ n:1 ]", "[ ]", "[ { x n:1 } ]"))
-			}
-		}
-		sb.WriteString(" }")
-	}
-	sb.WriteString(" ] Q [")
-	nq := r.Range(1, 6)
-	for i := 0; i < nq; i++ {
-		sb.WriteString(" s:" + r.PickS("r", "r", "s") + "." + keys[r.Intn(len(keys))])
-	}
-	sb.WriteString(" ]")
-	return sb.String()
-}
-
-// op[0]: u = JSON text / decoded tree (see the header); uy / ut = the same document written as YAML / TOML through
-// UnmarshalYamlBytes / UnmarshalTomlBytes (fs=1: WithStringValues handed on as an option).  For uy / ut the observation
-// is `D <the JSON document the front end produced, as tokens | none> R <result>`: the converted document is a value the
-// real code computes itself (encoding.YamlToJson / TomlToJson) and is observed, the model runs on it.
-func c08Exec(op []string) string {
-	if len(op) > 0 && op[0] == "v" {
-		return c08ExecValuer(op)
-	}
-	if len(op) < 6 || (op[0] != "u" && op[0] != "uy" && op[0] != "ut" && op[0] != "um") {
-		return "bad-op"
-	}
-	// um key=<json|form>: one struct type with `json:"<tag value>" form:"<key>"` on every field, read by the unmarshaler
-	// of the named key (plain options).  Package-level state that is keyed by the type (structRequiredCache) is shared
-	// by the two unmarshalers: sequences of `um` lines on one type exercise it.
-	c08Multi = op[0] == "um"
-	defer func() { c08Multi = false }()
-	cfg := verifh.ParseCfg(strings.Join(op[1:4], " "))
-	key := cfg.Str("key", "json")
-	p := &c08Parser{toks: op[4:]}
-	if p.next() != "T" {
-		return "bad-op"
-	}
-	ty := p.parseType(key)
-	if p.next() != "I" {
-		return "bad-op"
-	}
-	if ty.Kind() != reflect.Struct {
-		return "bad-op"
-	}
-	target := reflect.New(ty)
-	var err error
-	prefix := ""
-	if op[0] == "uy" || op[0] == "ut" {
-		if key != "json" {
-			return "bad-op"
-		}
-		viaReader := cfg.Int("fa", 0) == 1 // uy / ut: fa=1 = through UnmarshalYamlReader / UnmarshalTomlReader
-		tree := p.parseTree()
-		if p.pos != len(p.toks) {
-			return "bad-op"
-		}
-		var text string
-		var conv []byte
-		var cerr error
-		if op[0] == "uy" {
-			var sb strings.Builder
-			c08Yaml(&sb, tree, "", true)
-			text = sb.String()
-			conv, cerr = encoding.YamlToJson([]byte(text))
-		} else {
-			var ok bool
-			if text, ok = c08Toml(tree); !ok {
-				return "bad-op"
-			}
-			conv, cerr = encoding.TomlToJson([]byte(text))
-		}
-		prefix = "D none R "
-		if cerr == nil {
-			toks, ok := c08DocTokens(conv)
-			if !ok {
-				return "bad-op"
-			}
-			prefix = "D " + toks + " R "
-		}
-		var opts []UnmarshalOption
-		if cfg.Int("fs", 0) == 1 {
-			opts = append(opts, WithStringValues())
-		}
-		switch {
-		case op[0] == "uy" && viaReader:
-			err = UnmarshalYamlReader(strings.NewReader(text), target.Interface(), opts...)
-		case op[0] == "uy":
-			err = UnmarshalYamlBytes([]byte(text), target.Interface(), opts...)
-		case viaReader:
-			err = UnmarshalTomlReader(strings.NewReader(text), target.Interface(), opts...)
-		default:
-			err = UnmarshalTomlBytes([]byte(text), target.Interface(), opts...)
-		}
-		if cerr != nil {
-			if err == nil {
-				return prefix + "ok-although-conversion-failed"
-			}
-			return prefix + "err convert"
-		}
-	} else {
-	var sb strings.Builder
-	p.parseInput(&sb)
-	if p.pos != len(p.toks) {
-		return "bad-op"
-	}
-	if op[0] == "um" && key != "json" && key != "form" {
-		return "bad-op"
-	}
-	if key == "json" && cfg.Int("fs", 0) == 0 && cfg.Int("fa", 0) == 0 {
-		err = UnmarshalJsonBytes([]byte(sb.String()), target.Interface())
-	} else if op[0] == "um" {
-		var tree any
-		if e := jsonx.UnmarshalFromString(sb.String(), &tree); e != nil {
-			return "bad-op"
-		}
-		err = NewUnmarshaler(key).Unmarshal(tree, target.Interface())
-	} else {
-		var tree any
-		if e := jsonx.UnmarshalFromString(sb.String(), &tree); e != nil {
-			return "bad-op"
-		}
-		var opts []UnmarshalOption
-		if key == "header" {
-			// rest/internal/encoding: NewUnmarshaler("header", WithStringValues(), WithCanonicalKeyFunc(CanonicalMIMEHeaderKey))
-			opts = append(opts, WithStringValues(), WithCanonicalKeyFunc(textproto.CanonicalMIMEHeaderKey))
-		} else if cfg.Int("fs", 0) == 1 {
-			opts = append(opts, WithStringValues(), WithOpaqueKeys())
-		}
-		if cfg.Int("fa", 0) == 1 {
-			opts = append(opts, WithFromArray())
-			// rest/httpx hands []string values to the form unmarshaler
-			if m, ok := tree.(map[string]any); ok {
-				for k, v := range m {
-					if arr, ok := v.([]any); ok {
-						ss := make([]string, 0, len(arr))
-						all := true
-						for _, e := range arr {
-							if s, ok := e.(string); ok {
-								ss = append(ss, s)
-							} else {
-								all = false
-							}
-						}
-						if all {
-							m[k] = ss
-						}
-					}
-				}
-			}
-		}
-		err = NewUnmarshaler(key, opts...).Unmarshal(tree, target.Interface())
-	}
-	}
-	if err != nil {
-		return prefix + "err " + c08Class(err)
-	}
-	var out strings.Builder
-	out.WriteString(prefix + "ok")
-	c08Dump(&out, target.Elem())
-	return out.String()
-}
-
-// ---------------------------------------------------------------- generator
-
-type c08Field struct {
+type c08cField struct {
 	name, key string
-	ty        *c08Ty
+	ty        *c08cTy
 	tag       string // "x" or "t:…"
 	// what the generator knows about the constraints (to aim inputs at them)
 	optional, hasDefault, fromString bool
@@ -793,15 +542,15 @@ type c08Field struct {
 	options                          []string
 }
 
-type c08Ty struct {
+type c08cTy struct {
 	prim   string
-	ptr    *c08Ty
-	slice  *c08Ty
-	mp     *c08Ty
-	fields []*c08Field
+	ptr    *c08cTy
+	slice  *c08cTy
+	mp     *c08cTy
+	fields []*c08cField
 }
 
-func (t *c08Ty) tokens(sb *strings.Builder) {
+func (t *c08cTy) tokens(sb *strings.Builder) {
 	switch {
 	case t.ptr != nil:
 		sb.WriteString(" *")
@@ -825,40 +574,40 @@ func (t *c08Ty) tokens(sb *strings.Builder) {
 	}
 }
 
-func (t *c08Ty) base() *c08Ty {
+func (t *c08cTy) base() *c08cTy {
 	for t.ptr != nil {
 		t = t.ptr
 	}
 	return t
 }
 
-var c08PrimNames = []string{"bool", "int", "i8", "i16", "i32", "i64", "uint", "u8", "u16", "u32", "u64", "f32", "f64", "str"}
+var c08cPrimNames = []string{"bool", "int", "i8", "i16", "i32", "i64", "uint", "u8", "u16", "u32", "u64", "f32", "f64", "str"}
 
-func c08IsInt(p string) bool   { return p == "int" || (p[0] == 'i' && p != "int") }
-func c08IsUint(p string) bool  { return p[0] == 'u' }
-func c08IsFloat(p string) bool { return p == "f32" || p == "f64" }
-func c08IsNum(p string) bool   { return p != "bool" && p != "str" }
+func c08cIsInt(p string) bool   { return p == "int" || (p[0] == 'i' && p != "int") }
+func c08cIsUint(p string) bool  { return p[0] == 'u' }
+func c08cIsFloat(p string) bool { return p == "f32" || p == "f64" }
+func c08cIsNum(p string) bool   { return p != "bool" && p != "str" }
 
-func c08FmtBound(r *verifh.Rng, v float64) string {
+func c08cFmtBound(r *verifh.Rng, v float64) string {
 	if v == math.Trunc(v) {
 		return strconv.Itoa(int(v))
 	}
 	return strconv.FormatFloat(v, 'f', -1, 64)
 }
 
-func c08GenType(r *verifh.Rng, depth int, fromStringAll bool) *c08Ty {
+func c08cGenType(r *verifh.Rng, depth int, fromStringAll bool) *c08cTy {
 	n := r.Range(1, 5)
-	t := &c08Ty{}
+	t := &c08cTy{}
 	keys := []string{"a", "b", "c", "d", "e"}
 	for i := 0; i < n; i++ {
-		f := &c08Field{name: fmt.Sprintf("F%d", i), key: keys[i]}
+		f := &c08cField{name: fmt.Sprintf("F%d", i), key: keys[i]}
 		switch {
 		case depth < 2 && r.Chance(1, 6):
-			f.ty = c08GenType(r, depth+1, fromStringAll)
+			f.ty = c08cGenType(r, depth+1, fromStringAll)
 		case r.Chance(1, 7):
-			f.ty = c08GenContainer(r, depth, fromStringAll)
+			f.ty = c08cGenContainer(r, depth, fromStringAll)
 		default:
-			f.ty = &c08Ty{prim: c08PrimNames[r.Intn(len(c08PrimNames))]}
+			f.ty = &c08cTy{prim: c08cPrimNames[r.Intn(len(c08cPrimNames))]}
 			if r.Chance(1, 3) {
 				f.ty.prim = r.PickS("int", "i8", "u8", "f64", "str", "i64")
 			}
@@ -866,9 +615,9 @@ func c08GenType(r *verifh.Rng, depth int, fromStringAll bool) *c08Ty {
 		isCont := f.ty.slice != nil || f.ty.mp != nil
 		// pointers, also to slices and maps (`*[]T`, `*map[string]T`, `**[]T`)
 		if (!isCont && r.Chance(1, 5)) || (isCont && r.Chance(1, 4)) {
-			f.ty = &c08Ty{ptr: f.ty}
+			f.ty = &c08cTy{ptr: f.ty}
 			if r.Chance(1, 6) {
-				f.ty = &c08Ty{ptr: f.ty}
+				f.ty = &c08cTy{ptr: f.ty}
 			}
 		}
 		t.fields = append(t.fields, f)
@@ -913,20 +662,20 @@ func c08GenType(r *verifh.Rng, depth int, fromStringAll bool) *c08Ty {
 		}
 		if base.prim != "" {
 			p := base.prim
-			if c08IsNum(p) || r.Chance(1, 10) {
+			if c08cIsNum(p) || r.Chance(1, 10) {
 				if r.Chance(1, 2) {
 					lo := float64(r.Range(-3, 6))
 					hi := lo + float64(r.Range(0, 8))
-					if c08IsUint(p) && lo < 0 {
+					if c08cIsUint(p) && lo < 0 {
 						lo = 0
 						hi = float64(r.Range(1, 8))
 					}
-					if c08IsFloat(p) && r.Chance(1, 3) {
+					if c08cIsFloat(p) && r.Chance(1, 3) {
 						lo += 0.5
 						hi += 0.75
 					}
 					lb, rb := r.PickS("[", "[", "("), r.PickS("]", "]", ")")
-					ls, rs := c08FmtBound(r, lo), c08FmtBound(r, hi)
+					ls, rs := c08cFmtBound(r, lo), c08cFmtBound(r, hi)
 					switch r.Intn(6) {
 					case 0:
 						ls = ""
@@ -952,7 +701,7 @@ func c08GenType(r *verifh.Rng, depth int, fromStringAll bool) *c08Ty {
 					f.options = []string{"foo", "bar", "1"}
 				case p == "bool":
 					f.options = []string{"true", "1"}
-				case c08IsFloat(p):
+				case c08cIsFloat(p):
 					f.options = []string{"1", "2.5", "3"}
 				default:
 					f.options = []string{"1", "2", "3", "100"}
@@ -970,9 +719,9 @@ func c08GenType(r *verifh.Rng, depth int, fromStringAll bool) *c08Ty {
 					d = r.PickS("dflt", "foo", "x")
 				case p == "bool":
 					d = r.PickS("true", "false", "1", "0", "TRUE", "yes")
-				case c08IsFloat(p):
+				case c08cIsFloat(p):
 					d = r.PickS("1.5", "2", "-0.25", "1e2", "abc")
-				case c08IsUint(p):
+				case c08cIsUint(p):
 					d = r.PickS("0", "3", "7", "300", "-1", "70000")
 				default:
 					d = r.PickS("0", "3", "-2", "7", "200", "1.5", "99999999999")
@@ -1027,35 +776,35 @@ func c08GenType(r *verifh.Rng, depth int, fromStringAll bool) *c08Ty {
 }
 
 // slice or map[string] of: primitive, pointer to primitive, struct, (rarely) another container
-func c08GenContainer(r *verifh.Rng, depth int, fromStringAll bool) *c08Ty {
-	var elem *c08Ty
+func c08cGenContainer(r *verifh.Rng, depth int, fromStringAll bool) *c08cTy {
+	var elem *c08cTy
 	switch x := r.Intn(10); {
 	case x < 6:
-		elem = &c08Ty{prim: r.PickS("int", "i8", "u8", "f64", "str", "bool", "i64", "u16")}
+		elem = &c08cTy{prim: r.PickS("int", "i8", "u8", "f64", "str", "bool", "i64", "u16")}
 		if r.Chance(1, 4) {
-			elem = &c08Ty{ptr: elem}
+			elem = &c08cTy{ptr: elem}
 		}
 	case x < 8 && depth < 2:
-		elem = c08GenType(r, depth+2, fromStringAll)
+		elem = c08cGenType(r, depth+2, fromStringAll)
 		if r.Chance(1, 3) {
-			elem = &c08Ty{ptr: elem}
+			elem = &c08cTy{ptr: elem}
 		}
 	case x < 9:
-		elem = c08GenContainer(r, depth+1, fromStringAll)
+		elem = c08cGenContainer(r, depth+1, fromStringAll)
 		if r.Chance(1, 3) {
-			elem = &c08Ty{ptr: elem} // []*[]T, map[string]*map[string]T, ...
+			elem = &c08cTy{ptr: elem} // []*[]T, map[string]*map[string]T, ...
 		}
 	default:
-		elem = &c08Ty{prim: "int"}
+		elem = &c08cTy{prim: "int"}
 	}
 	if r.Chance(1, 2) {
-		return &c08Ty{slice: elem}
+		return &c08cTy{slice: elem}
 	}
-	return &c08Ty{mp: elem}
+	return &c08cTy{mp: elem}
 }
 
 // an element aimed at a slice/map element type
-func c08ElemInput(r *verifh.Rng, t *c08Ty, sb *strings.Builder, inMap bool) {
+func c08cElemInput(r *verifh.Rng, t *c08cTy, sb *strings.Builder, inMap bool) {
 	if r.Chance(1, 12) {
 		sb.WriteString(" null")
 		return
@@ -1067,14 +816,14 @@ func c08ElemInput(r *verifh.Rng, t *c08Ty, sb *strings.Builder, inMap bool) {
 	b := t.base()
 	switch {
 	case b.prim != "":
-		dummy := &c08Field{}
+		dummy := &c08cField{}
 		asString := !inMap && r.Chance(1, 4)
-		sb.WriteString(" " + c08PrimInput(r, dummy, b.prim, asString))
+		sb.WriteString(" " + c08cPrimInput(r, dummy, b.prim, asString))
 	case b.slice != nil:
 		sb.WriteString(" [")
 		n := r.Pick(0, 1, 2, 3)
 		for i := 0; i < n; i++ {
-			c08ElemInput(r, b.slice, sb, false)
+			c08cElemInput(r, b.slice, sb, false)
 		}
 		sb.WriteString(" ]")
 	case b.mp != nil:
@@ -1082,15 +831,15 @@ func c08ElemInput(r *verifh.Rng, t *c08Ty, sb *strings.Builder, inMap bool) {
 		n := r.Pick(0, 1, 2)
 		for i := 0; i < n; i++ {
 			sb.WriteString(" " + r.PickS("k", "j", "a", "zz"))
-			c08ElemInput(r, b.mp, sb, true)
+			c08cElemInput(r, b.mp, sb, true)
 		}
 		sb.WriteString(" }")
 	default:
-		c08GenInput(r, b, sb, false, false, r.Pick(75, 100))
+		c08cGenInput(r, b, sb, false, false, r.Pick(75, 100))
 	}
 }
 
-func c08IntLit(r *verifh.Rng, f *c08Field, p string) string {
+func c08cIntLit(r *verifh.Rng, f *c08cField, p string) string {
 	if len(f.options) > 0 && r.Chance(1, 2) {
 		return f.options[r.Intn(len(f.options))]
 	}
@@ -1133,7 +882,7 @@ func c08IntLit(r *verifh.Rng, f *c08Field, p string) string {
 	}
 }
 
-func c08FloatLit(r *verifh.Rng, f *c08Field, p string) string {
+func c08cFloatLit(r *verifh.Rng, f *c08cField, p string) string {
 	if len(f.options) > 0 && r.Chance(1, 2) {
 		return f.options[r.Intn(len(f.options))]
 	}
@@ -1146,15 +895,15 @@ func c08FloatLit(r *verifh.Rng, f *c08Field, p string) string {
 	if f.hasRange && r.Chance(3, 4) {
 		switch r.Intn(6) {
 		case 0:
-			return c08FmtBound(r, f.lo)
+			return c08cFmtBound(r, f.lo)
 		case 1:
-			return c08FmtBound(r, f.hi)
+			return c08cFmtBound(r, f.hi)
 		case 2:
-			return c08FmtBound(r, f.lo-0.25)
+			return c08cFmtBound(r, f.lo-0.25)
 		case 3:
-			return c08FmtBound(r, f.hi+0.25)
+			return c08cFmtBound(r, f.hi+0.25)
 		default:
-			return c08FmtBound(r, f.lo+float64(r.Range(0, 4))*0.25)
+			return c08cFmtBound(r, f.lo+float64(r.Range(0, 4))*0.25)
 		}
 	}
 	switch r.Intn(10) {
@@ -1163,17 +912,17 @@ func c08FloatLit(r *verifh.Rng, f *c08Field, p string) string {
 	case 1:
 		return r.PickS("1e39", "-1e39", "1e400", "3.5e38")
 	default:
-		return c08FmtBound(r, float64(r.Range(-8, 40))*0.25)
+		return c08cFmtBound(r, float64(r.Range(-8, 40))*0.25)
 	}
 }
 
 // value tokens aimed at a field of primitive kind p
-func c08PrimInput(r *verifh.Rng, f *c08Field, p string, asString bool) string {
+func c08cPrimInput(r *verifh.Rng, f *c08cField, p string, asString bool) string {
 	wrap := func(lit string) string {
 		if asString {
 			return "s:" + lit
 		}
-		if c08ValidJSONNumber(lit) {
+		if c08cValidJSONNumber(lit) {
 			return "n:" + lit
 		}
 		return "s:" + lit
@@ -1193,23 +942,23 @@ func c08PrimInput(r *verifh.Rng, f *c08Field, p string, asString bool) string {
 			return "s:" + f.options[r.Intn(len(f.options))]
 		}
 		return "s:" + r.PickS("foo", "bar", "baz", "", "1", "x-y_z")
-	case c08IsFloat(p):
+	case c08cIsFloat(p):
 		if asString && r.Chance(1, 8) {
 			return "s:" + r.PickS("NaN", "nan", "inf", "-inf", "+Inf", "Infinity", ".5", "5.", "1e", "--1")
 		}
-		return wrap(c08FloatLit(r, f, p))
+		return wrap(c08cFloatLit(r, f, p))
 	default:
 		if r.Chance(1, 25) {
-			return wrap(c08FloatLit(r, f, p))
+			return wrap(c08cFloatLit(r, f, p))
 		}
-		return wrap(c08IntLit(r, f, p))
+		return wrap(c08cIntLit(r, f, p))
 	}
 }
 
 // header mode: the keys of the (top-level) input are canonical MIME header keys, as net/http delivers them
-var c08Header bool
+var c08cHeader bool
 
-func c08GenInput(r *verifh.Rng, t *c08Ty, sb *strings.Builder, fsAll, fa bool, pPresent int) {
+func c08cGenInput(r *verifh.Rng, t *c08cTy, sb *strings.Builder, fsAll, fa bool, pPresent int) {
 	sb.WriteString(" {")
 	// presence, then (mostly) repaired so that optional=dep / optional=!dep hold
 	present := map[string]bool{}
@@ -1238,10 +987,10 @@ func c08GenInput(r *verifh.Rng, t *c08Ty, sb *strings.Builder, fsAll, fa bool, p
 		if r.Chance(1, 50) {
 			key = f.name
 		}
-		if c08Header && !r.Chance(1, 40) {
+		if c08cHeader && !r.Chance(1, 40) {
 			key = textproto.CanonicalMIMEHeaderKey(key)
 		}
-		sb.WriteString(" " + key + " ")
+		sb.WriteString(" " + c08cCase(r, key) + " ")
 		if r.Chance(1, 25) {
 			sb.WriteString("null")
 			continue
@@ -1253,7 +1002,7 @@ func c08GenInput(r *verifh.Rng, t *c08Ty, sb *strings.Builder, fsAll, fa bool, p
 				sb.WriteString("[")
 				n := r.Pick(1, 2, 3)
 				for i := 0; i < n; i++ {
-					sb.WriteString(" " + c08PrimInput(r, &c08Field{}, base.slice.base().prim, true))
+					sb.WriteString(" " + c08cPrimInput(r, &c08cField{}, base.slice.base().prim, true))
 				}
 				sb.WriteString(" ]")
 				continue
@@ -1272,7 +1021,7 @@ func c08GenInput(r *verifh.Rng, t *c08Ty, sb *strings.Builder, fsAll, fa bool, p
 				continue
 			}
 			var inner strings.Builder
-			c08ElemInput(r, base, &inner, false)
+			c08cElemInput(r, base, &inner, false)
 			v := strings.TrimSpace(inner.String())
 			if strings.HasPrefix(v, "s:") {
 				v = "n:7" // a string for a slice/map field is JSON text: outside the model
@@ -1282,11 +1031,11 @@ func c08GenInput(r *verifh.Rng, t *c08Ty, sb *strings.Builder, fsAll, fa bool, p
 		}
 		if base.prim != "" {
 			asString := fsAll || (f.fromString && r.Chance(4, 5)) || r.Chance(1, 30)
-			v := c08PrimInput(r, f, base.prim, asString)
+			v := c08cPrimInput(r, f, base.prim, asString)
 			if fa && r.Chance(1, 2) {
 				switch r.Intn(6) {
 				case 0:
-					v = "[ " + v + " " + c08PrimInput(r, f, base.prim, asString) + " ]"
+					v = "[ " + v + " " + c08cPrimInput(r, f, base.prim, asString) + " ]"
 				case 1:
 					v = "[ ]"
 				default:
@@ -1299,7 +1048,7 @@ func c08GenInput(r *verifh.Rng, t *c08Ty, sb *strings.Builder, fsAll, fa bool, p
 				sb.WriteString(r.PickS("n:1", "s:x", "[ ]", "true", "n:100"))
 			} else {
 				var inner strings.Builder
-				c08GenInput(r, base, &inner, fsAll, fa, pPresent)
+				c08cGenInput(r, base, &inner, fsAll, fa, pPresent)
 				sb.WriteString(strings.TrimSpace(inner.String()))
 			}
 		}
@@ -1310,138 +1059,190 @@ func c08GenInput(r *verifh.Rng, t *c08Ty, sb *strings.Builder, fsAll, fa bool, p
 	sb.WriteString(" }")
 }
 
-func c08Gen(r *verifh.Rng) []verifh.Section {
+
+func c08cJSONText(v any, sb *strings.Builder) {
+	switch x := v.(type) {
+	case c08cObj:
+		sb.WriteByte('{')
+		for i, k := range x.keys {
+			if i > 0 {
+				sb.WriteByte(',')
+			}
+			sb.WriteString(strconv.Quote(k) + ":")
+			c08cJSONText(x.m[k], sb)
+		}
+		sb.WriteByte('}')
+	case []any:
+		sb.WriteByte('[')
+		for i, e := range x {
+			if i > 0 {
+				sb.WriteByte(',')
+			}
+			c08cJSONText(e, sb)
+		}
+		sb.WriteByte(']')
+	case nil:
+		sb.WriteString("null")
+	case bool:
+		fmt.Fprintf(sb, "%v", x)
+	case c08cNum:
+		sb.WriteString(string(x))
+	case string:
+		sb.WriteString(strconv.Quote(x))
+	}
+}
+
+func c08cExec(op []string) string {
+	if len(op) < 7 || op[0] != "c" {
+		return "bad-op"
+	}
+	cfg := verifh.ParseCfg(strings.Join(op[1:4], " "))
+	format, via := cfg.Str("fmt", "json"), cfg.Str("via", "bytes")
+	p := &c08cParser{toks: op[4:]}
+	if p.next() != "T" {
+		return "bad-op"
+	}
+	ty := p.parseType("json")
+	if p.next() != "I" {
+		return "bad-op"
+	}
+	if ty.Kind() != reflect.Struct {
+		return "bad-op"
+	}
+	tree := p.parseTree()
+	if p.pos != len(p.toks) {
+		return "bad-op"
+	}
+	var text string
+	var loader func([]byte, any) error
+	var toJSON func([]byte) ([]byte, error)
+	switch format {
+	case "json":
+		var sb strings.Builder
+		c08cJSONText(tree, &sb)
+		text, loader = sb.String(), LoadFromJsonBytes
+		toJSON = func(b []byte) ([]byte, error) { return b, nil }
+	case "yaml":
+		var sb strings.Builder
+		c08cYaml(&sb, tree, "", true)
+		text, loader, toJSON = sb.String(), LoadFromYamlBytes, encoding.YamlToJson
+	case "toml":
+		var ok bool
+		if text, ok = c08cToml(tree); !ok {
+			return "bad-op"
+		}
+		loader, toJSON = LoadFromTomlBytes, encoding.TomlToJson
+	default:
+		return "bad-op"
+	}
+	target := reflect.New(ty)
+	// the document the unmarshaller is handed: conversion, decoding, lowering of the keys — computed with the code's own functions
+	prefix := "D none R "
+	if b, err := toJSON([]byte(text)); err == nil {
+		var m map[string]any
+		if err = jsonx.Unmarshal(b, &m); err == nil {
+			if info, err := buildFieldsInfo(reflect.TypeOf(target.Interface()), ""); err == nil {
+				low := toLowerCaseKeyMap(m, info)
+				var sb strings.Builder
+				if !c08cJSONTokens(&sb, map[string]any(low)) {
+					return "bad-op"
+				}
+				prefix = "D " + strings.TrimSpace(sb.String()) + " R "
+			}
+		}
+	}
+	var err error
+	if via == "alias" {
+		// the deprecated spellings forward to the same loaders
+		switch format {
+		case "json":
+			loader = LoadConfigFromJsonBytes
+		case "yaml":
+			loader = LoadConfigFromYamlBytes
+		}
+	}
+	if via == "file" || via == "cfgfile" {
+		f, ferr := os.CreateTemp("", "c08conf-*."+format)
+		if ferr != nil {
+			return "bad-op"
+		}
+		name := f.Name()
+		defer os.Remove(name)
+		if _, ferr = f.WriteString(text); ferr != nil {
+			f.Close()
+			return "bad-op"
+		}
+		f.Close()
+		if via == "cfgfile" {
+			err = LoadConfig(name, target.Interface())
+		} else {
+			err = Load(name, target.Interface())
+		}
+	} else {
+		err = loader([]byte(text), target.Interface())
+	}
+	if strings.HasPrefix(prefix, "D none") {
+		if err == nil {
+			return prefix + "ok-although-conversion-failed"
+		}
+		return prefix + "err convert"
+	}
+	if err != nil {
+		return prefix + "err " + c08cClass(err)
+	}
+	var out strings.Builder
+	out.WriteString(prefix + "ok")
+	c08cDump(&out, target.Elem())
+	return out.String()
+}
+
+func c08cGen(r *verifh.Rng) []verifh.Section {
 	var secs []verifh.Section
-	nsec := verifh.Scale(120, 500)
+	nsec := verifh.Scale(40, 160)
 	for i := 0; i < nsec; i++ {
 		var ops []string
-		// the two confirmed defects of the pinned commit, as fixed regression lines
 		if i == 0 {
 			ops = append(ops,
-				"u key=json fs=0 fa=0 T { A int t:a,optional B int t:b,optional=a,range=[1:5] } I { a n:1 b n:100 }",
-				"u key=json fs=0 fa=0 T { F f64 t:f,string,range=[1:5] } I { f s:NaN }",
-				"u key=form fs=1 fa=1 T { F f64 t:f,range=[1:5] } I { f [ s:nan ] }",
-				"u key=form fs=1 fa=1 T { F str t:a,optional } I { a null }",
-				"u key=header fs=1 fa=0 T { A str t:a,optional B str t:b,optional=!a } I { A s:1 B s:2 }",
-				"u key=header fs=1 fa=0 T { A str t:a,optional B str t:b,optional=!a } I { A s:1 }",
-				"u key=header fs=1 fa=0 T { A str t:x-a,optional B int t:b,optional=x-a,range=[1:5] } I { X-A s:1 B s:9 }",
-				"u key=json fs=0 fa=0 T { M map * int t:m } I { m { k n:1 } }",
-				"u key=json fs=0 fa=0 T { M map [] int t:m } I { m { k null } }",
-				// round 2: pointers to slices and maps (panics of the pinned commit), default cache shared across element kinds
-				"u key=json fs=0 fa=0 T { A * [] int t:a } I { a [ ] }",
-				"u key=json fs=0 fa=0 T { A * [] int t:a } I { a [ n:1 n:2 ] }",
-				"u key=json fs=0 fa=0 T { A * [] int t:a,optional } I { a [ null ] }",
-				"u key=json fs=0 fa=0 T { A * map int t:a } I { }",
-				"u key=json fs=0 fa=0 T { A * map int t:a } I { a { k n:1 } }",
-				"u key=json fs=0 fa=0 T { A [] * [] int t:a } I { a [ [ n:1 ] null [ ] ] }",
-				"u key=json fs=0 fa=0 T { A map * [] int t:a } I { a { k [ n:1 ] j [ ] } }",
-				"u key=json fs=0 fa=0 T { A * [] str t:a,default=[x,y] } I { }",
-				"u key=json fs=0 fa=0 T { A [] bool t:a,default=[true] } I { }",
-				"u key=json fs=0 fa=0 T { A [] str t:a,default=[true] } I { }",
-				// round 4: YAML / TOML front ends (fs=1: WithStringValues handed on as an option)
-				"uy key=json fs=0 fa=0 T { A int t:a,range=[1:5] B f64 t:b,optional C { X str t:x,options=foo|bar } t:c D [] int t:d,optional } I { a n:5 b n:1e2 c { x s:foo } d [ n:1 null n:3 ] }",
-				"uy key=json fs=0 fa=0 T { A int t:a,range=[1:5] } I { a n:6 }",
-				// domain restriction (Props.yaml_null_witness): a YAML null reaches the unmarshaller as the empty string
-				"uy key=json fs=0 fa=0 T { A int t:a,optional B str t:b } I { a null b s:x }",
-				"u key=json fs=0 fa=0 T { A int t:a,optional B str t:b } I { a null b s:x }",
-				"ut key=json fs=0 fa=0 T { A int t:a,range=[1:5] B f64 t:b,optional C { X str t:x,options=foo|bar } t:c M map int t:m } I { a n:5 b n:2.5 c { x s:foo } m { k n:1 j n:2 } }",
-				"ut key=json fs=0 fa=0 T { A int t:a,optional=b,range=(0:5) B bool t:b,optional } I { a n:5 b true }",
-				"uy key=json fs=1 fa=0 T { A int t:a,range=[1:5] B bool t:b } I { a s:5 b s:1 }",
-				"ut key=json fs=1 fa=0 T { A u8 t:a,default=7 B f32 t:b } I { b s:1.5 }")
+				"c fmt=json via=bytes key=json T { A int t:a,range=[1:5] B str t:Name,options=foo|bar C { X u8 t:x,default=3 } t:c,optional } I { A n:5 NAME s:foo }",
+				"c fmt=yaml via=bytes key=json T { A int t:a,range=[1:5] B str t:Name,options=foo|bar } I { a n:6 name s:foo }",
+				"c fmt=toml via=file key=json T { A int t:a,optional=b,range=(0:5) B bool t:b,optional M map int t:m } I { A n:4 B true m { Kk n:1 } }",
+				"c fmt=yaml via=file key=json T { A int t:a,optional B str t:b } I { a null b s:x }",
+				"c fmt=json via=file key=json T { A f64 t:a,range=[:2.5) B [] { X int t:x,range=[1:5] } t:b } I { a n:-7 B [ { X n:5 } { x n:1 } ] }")
 		}
-		ntypes := verifh.Scale(12, 30)
+		ntypes := verifh.Scale(8, 20)
 		for k := 0; k < ntypes; k++ {
-			mode := r.Intn(10)
-			cfg := "key=json fs=0 fa=0"
-			fsAll, fa, hdr := false, false, false
-			switch {
-			case mode == 0:
-				cfg, fsAll, fa = "key=form fs=1 fa=1", true, true
-			case mode == 1:
-				cfg, fsAll = "key=path fs=1 fa=0", true
-			case mode == 2:
-				cfg = "key=key fs=0 fa=0"
-			case mode == 3:
-				cfg, fsAll, hdr = "key=header fs=1 fa=0", true, true
-			}
-			t := c08GenType(r, 0, fsAll)
+			t := c08cGenType(r, 0, false)
 			var tb strings.Builder
 			t.tokens(&tb)
-			ninputs := r.Range(3, 10)
+			ninputs := r.Range(3, 8)
 			for j := 0; j < ninputs; j++ {
 				var ib strings.Builder
-				c08Header = hdr
-				c08GenInput(r, t, &ib, fsAll, fa, r.Pick(50, 75, 90, 100))
-				c08Header = false
+				c08cGenInput(r, t, &ib, false, false, r.Pick(50, 75, 90, 100))
 				in := strings.TrimSpace(ib.String())
 				if r.Chance(1, 60) {
 					in = r.PickS("[ ]", "n:1", "null", "s:x", "{ }")
 				}
-				head := "u"
-				if cfg == "key=path fs=1 fa=0" && r.Chance(1, 3) {
-					// string values through the YAML / TOML front ends: WithStringValues is handed on as an option
-					cfg2 := "key=json fs=1 fa=0"
-					head = r.PickS("uy", "ut")
-					if head == "ut" && (strings.Contains(in, "null") || !strings.HasPrefix(in, "{")) {
-						head = "uy"
-					}
-					if r.Chance(1, 3) {
-						cfg2 = "key=json fs=1 fa=1" // through the Reader form
-					}
-					ops = append(ops, head+" "+cfg2+" T"+tb.String()+" I "+in)
-					continue
+				format := r.PickS("json", "json", "yaml", "yaml", "toml")
+				if format == "toml" && (strings.Contains(in, "null") || !strings.HasPrefix(in, "{")) {
+					format = "yaml"
 				}
-				if cfg == "key=json fs=0 fa=0" && r.Chance(1, 4) {
-					// the same document through the YAML / TOML front ends (TOML cannot write null)
-					head = r.PickS("uy", "ut")
-					if head == "ut" && (strings.Contains(in, "null") || !strings.HasPrefix(in, "{")) {
-						head = "uy"
-					}
-				}
-				if head != "u" && r.Chance(1, 3) {
-					cfg = "key=json fs=0 fa=1" // through the Reader form
-				}
-				ops = append(ops, head+" "+cfg+" T"+tb.String()+" I "+in)
+				via := r.PickS("bytes", "bytes", "bytes", "file", "file", "cfgfile", "alias")
+				ops = append(ops, "c fmt="+format+" via="+via+" key=json T"+tb.String()+" I "+in)
 			}
-		}
-		if i == 0 {
-			// fixed in a8b007f (Props.structRequiredCache_witness): before, `form` first cached "the nested struct needs a value"
-			// for the type and the `json` unmarshaler then refused {} although every field is optional under `json`
-			ops = append(ops,
-				"um key=form fs=0 fa=0 T { In { A int t:a,optional } t:in } I { }",
-				"um key=json fs=0 fa=0 T { In { A int t:a,optional } t:in } I { }",
-				"um key=json fs=0 fa=0 T { In { A int t:a,optional } t:in X int t:x,range=[1:5] } I { x n:5 }",
-				"um key=form fs=0 fa=0 T { In { A int t:a,optional } t:in X int t:x,range=[1:5] } I { x n:9 in { a n:1 } }")
-		}
-		for k := verifh.Scale(3, 6); k > 0; k-- {
-			// one struct type under two tag keys, several documents each, in both orders
-			t := c08GenType(r, 1, false)
-			var tb strings.Builder
-			t.tokens(&tb)
-			first := r.PickS("form", "json")
-			for _, key := range []string{first, map[string]string{"form": "json", "json": "form"}[first], first} {
-				for j := r.Range(1, 3); j > 0; j-- {
-					var ib strings.Builder
-					c08GenInput(r, t, &ib, false, false, r.Pick(0, 50, 90, 100))
-					ops = append(ops, "um key="+key+" fs=0 fa=0 T"+tb.String()+" I "+strings.TrimSpace(ib.String()))
-				}
-			}
-		}
-		if i == 0 {
-			ops = append(ops,
-				"v C [ { a n:1 b { x n:1 } } { a n:2 b { x n:9 y n:2 } c s:up } { d true b { z n:3 } } ] Q [ s:r.a s:s.c s:r.c s:r.d s:s.b s:r.b s:s.b s:r.zz ]")
-		}
-		for k := verifh.Scale(6, 12); k > 0; k-- {
-			ops = append(ops, c08GenValuerOp(r))
 		}
 		secs = append(secs, verifh.Section{Cfg: fmt.Sprintf("i=%d", i), Ops: ops})
 	}
 	return secs
 }
 
-func TestVerifC08(t *testing.T) {
-	secs := verifh.Sections(c08Gen)
+func TestVerifC08Conf(t *testing.T) {
+	secs := verifh.Sections(c08cGen)
 	verifh.Run(t, secs, func(cfg verifh.Cfg) (func(op []string) string, func()) {
-		return c08Exec, nil
+		return c08cExec, nil
 	})
 }
+
+var _ = bytes.NewReader
+var _ = json.Valid
+var _ = math.Abs
+var _ = sort.Strings
